@@ -1,4 +1,114 @@
+/-
+  C02 — hashes equal the published algorithms.
+  For the digest-based methods the model follows the C code call by call (Init / Update / Final on a
+  streaming context, `*_recycled` helpers); the published constructions are stated over one-shot digests
+  of concatenated messages (Xc/Spec/Crypts.lean).  Theorems: the two are the same function, for every
+  phrase, salt and round count.  (Streaming = one-shot is C16.)
+-/
+import Xc.Spec.Crypts
 import Xc.Thm.C16
 namespace Xc.C02
-theorem placeholder : True := trivial
+open Xc MD
+
+theorem digestOf_eq {σ} (A : Alg σ) (hb : 0 < A.block) (chunks : List Bytes) :
+    Cores.digestOf A chunks = hash A chunks.flatten := by
+  unfold Cores.digestOf; exact streaming_eq_hash A hb chunks
+
+/-- NT = MD4 (UCS-2LE phrase) -/
+theorem C02_nt (pw : Bytes) : Cores.ntCore pw = Spec.nt pw := by
+  simp [Cores.ntCore, Spec.nt, digestOf_eq Md4.alg (by decide), Md4.hash]
+
+/-- HMAC-SHA1 as called by sha1crypt = RFC 2104 -/
+theorem hmacSha1_eq (key text : Bytes) : Cores.hmacSha1 key text = Spec.hmac Sha1.hash 64 key text := by
+  rw [C16.C16_hmac_sha1]; rfl
+
+/-- sha1crypt = the published HMAC chain -/
+theorem C02_sha1crypt (pw salt : Bytes) (iterations : Nat) : Cores.sha1cryptCore pw salt iterations = Spec.sha1crypt pw salt iterations := by
+  simp only [Cores.sha1cryptCore, Spec.sha1crypt, hmacSha1_eq]
+
+/-- SunMD5 = the published round structure -/
+theorem C02_sunmd5 (pw pre : Bytes) (n : Nat) : Cores.sunmd5Core pw pre n = Spec.sunmd5 pw pre n := by
+  simp only [Cores.sunmd5Core, Spec.sunmd5, digestOf_eq Md5.alg (by decide), Md5.hash]
+  congr 1
+  · funext dg i
+    split <;> simp
+  · simp
+
+theorem md5_alt_flatten (alt : Bytes) : ∀ fuel cnt,
+    (Cores.md5cryptCore.altChunks alt fuel cnt).flatten = Spec.md5crypt.altBytes alt fuel cnt := by
+  intro fuel
+  induction fuel with
+  | zero => intro cnt; rfl
+  | succ f ih =>
+    intro cnt
+    simp only [Cores.md5cryptCore.altChunks, Spec.md5crypt.altBytes]
+    split
+    · simp [ih]
+    · simp
+
+theorem md5_bit_flatten (pw : Bytes) : ∀ fuel cnt,
+    (Cores.md5cryptCore.bitChunks pw fuel cnt).flatten = Spec.md5crypt.bitBytes pw fuel cnt := by
+  intro fuel
+  induction fuel with
+  | zero => intro cnt; rfl
+  | succ f ih =>
+    intro cnt
+    simp only [Cores.md5cryptCore.bitChunks, Spec.md5crypt.bitBytes]
+    split
+    · simp [ih]
+    · simp
+
+/-- md5crypt = PHK's algorithm over one-shot MD5 -/
+theorem C02_md5crypt (pw salt : Bytes) : Cores.md5cryptCore pw salt = Spec.md5crypt pw salt := by
+  simp only [Cores.md5cryptCore, Spec.md5crypt, digestOf_eq Md5.alg (by decide), Md5.hash]
+  congr 1
+  · funext r i
+    congr 1
+    split <;> split <;> split <;> simp
+  · simp [md5_alt_flatten, md5_bit_flatten]
+
+theorem sha_alt_flatten (alt : Bytes) (hlen : Nat) : ∀ fuel cnt,
+    (Cores.shaCryptCore.altChunks hlen alt fuel cnt).flatten = Spec.shaCrypt.altBytes hlen alt fuel cnt := by
+  intro fuel
+  induction fuel with
+  | zero => intro cnt; rfl
+  | succ f ih =>
+    intro cnt
+    simp only [Cores.shaCryptCore.altChunks, Spec.shaCrypt.altBytes]
+    split
+    · simp [ih]
+    · simp
+
+theorem sha_bit_flatten (pw alt : Bytes) : ∀ fuel cnt,
+    (Cores.shaCryptCore.bitChunks pw alt fuel cnt).flatten = Spec.shaCrypt.bitBytes pw alt fuel cnt := by
+  intro fuel
+  induction fuel with
+  | zero => intro cnt; rfl
+  | succ f ih =>
+    intro cnt
+    simp only [Cores.shaCryptCore.bitChunks, Spec.shaCrypt.bitBytes]
+    split
+    · simp [ih]
+    · simp
+
+theorem recycled_flatten (block : Bytes) (hlen len : Nat) :
+    (Cores.recycled block hlen len).flatten = Spec.repeatTo block hlen len := by
+  simp [Cores.recycled, Spec.repeatTo]
+
+/-- sha256crypt / sha512crypt = Drepper's specification over the one-shot hash (any MD algorithm, any digest length) -/
+theorem C02_shacrypt {σ} (A : Alg σ) (hb : 0 < A.block) (hlen : Nat) (pw salt : Bytes) (rounds : Nat) :
+    Cores.shaCryptCore A hlen pw salt rounds = Spec.shaCrypt (hash A) hlen pw salt rounds := by
+  simp only [Cores.shaCryptCore, Spec.shaCrypt, digestOf_eq A hb, List.flatten_append, List.flatten_cons, List.flatten_nil,
+    List.append_nil, sha_alt_flatten, sha_bit_flatten, List.append_assoc]
+  congr 1
+  funext r i
+  congr 1
+  split <;> split <;> split <;> simp [recycled_flatten]
+
+theorem C02_sha256crypt (pw salt : Bytes) (rounds : Nat) : Cores.sha256cryptCore pw salt rounds = Spec.sha256crypt pw salt rounds :=
+  C02_shacrypt Sha256.alg (by decide) 32 pw salt rounds
+
+theorem C02_sha512crypt (pw salt : Bytes) (rounds : Nat) : Cores.sha512cryptCore pw salt rounds = Spec.sha512crypt pw salt rounds :=
+  C02_shacrypt Sha512.alg (by decide) 64 pw salt rounds
+
 end Xc.C02
